@@ -104,17 +104,19 @@ def rstState (c : H2Conn) (sid : Nat) : H2Conn :=
     let c := if s.st ≠ .hcRemote ∧ s.st ≠ .closed then { c with hcRecent := true } else c
     updStrm c sid fun s => { s with st := .closed, err := true }
 
+/-- h2_send_goaway_rst_stream(): on an error GOAWAY all open streams are reset
+    (RST_STREAM frames go out only if a GOAWAY had been sent before) -/
+def goawayResets (c : H2Conn) (code : Nat) : Res :=
+  if code ≠ 0 then
+    (((c.streams.filter (·.st ≠ .closed)).foldl (fun c s => rstState c s.id) c),
+     if c.goaway ≠ 0 then (c.streams.filter (·.st ≠ .closed)).map fun s => Out.rst s.id E.protocol else [])
+  else (c, [])
+
 /-- h2_send_goaway() -/
 def sendGoaway (c : H2Conn) (code : Nat) : Res :=
-  -- h2_send_goaway_rst_stream(): on error, reset all open streams (RST frames only if a GOAWAY went out before)
-  let (c, outs) :=
-    if code ≠ 0 then
-      let live := c.streams.filter (·.st ≠ .closed)
-      let c' := live.foldl (fun c s => rstState c s.id) c
-      (c', if c.goaway ≠ 0 then live.map fun s => Out.rst s.id E.protocol else [])
-    else (c, [])
-  if c.goaway ≠ 0 ∧ (c.goaway > 0 ∨ code = 0) then (c, outs)
-  else ({ c with goaway := if code = 0 then -1 else (code : Int) }, outs ++ [.goaway c.cid code])
+  let r := goawayResets c code
+  if r.1.goaway ≠ 0 ∧ (r.1.goaway > 0 ∨ code = 0) then r
+  else ({ r.1 with goaway := if code = 0 then -1 else (code : Int) }, r.2 ++ [.goaway r.1.cid code])
 
 /-- h2_send_window_update_unit() -/
 def fudgeUpdate (fudge : Int) (len : Nat) : Int × Bool :=
@@ -138,39 +140,42 @@ def recvEndData (c : H2Conn) (s : Strm) (alen : Nat) : H2Conn × List Out × Boo
     (rstState c1 s.id, [.rst s.id E.protocol], false)
   else (c1, [], true)
 
+/-- connection-level receive window credit for a DATA frame of `len` bytes -/
+def connWinUpd (c : H2Conn) (len : Nat) : Res :=
+  ({ c with fudge := (fudgeUpdate c.fudge len).1 },
+   if (fudgeUpdate c.fudge len).2 then [.windowUpdate 0 16384] else [])
+
+/-- h2_recv_data() on a stream the server still tracks -/
+def recvDataStream (c : H2Conn) (s : Strm) (sid len alen : Nat) (endStream : Bool) : Res :=
+  if s.st = .closed ∨ s.st = .hcRemote then
+    -- stream error: the stream is closed and will be retired without further frames
+    ((connWinUpd (rstState c sid) len).1, [.rst sid E.streamClosed] ++ (connWinUpd (rstState c sid) len).2)
+  else
+    let r1 := connWinUpd c len
+    if s.reqLen ≥ 0 ∧ s.reqLen < ((s.bodyIn + alen : Nat) : Int) then
+      (rstState r1.1 sid, r1.2 ++ [.rst sid E.protocol])
+    else
+      let e : H2Conn × List Out × Bool := if endStream then recvEndData r1.1 s alen else (r1.1, [], true)
+      if !e.2.2 then (e.1, r1.2 ++ e.2.1) else
+      let fw := fudgeUpdate s.fudge (if endStream then 0 else len)
+      (updStrm e.1 sid fun x => { x with fudge := fw.1, bodyIn := x.bodyIn + alen },
+       r1.2 ++ e.2.1 ++ (if fw.2 then [.windowUpdate sid 16384] else []))
+
 /-- h2_recv_data() for a complete frame -/
 def recvData (c : H2Conn) (sid len : Nat) (pad : Option Nat) (endStream : Bool) : Res :=
   if sid = 0 ∨ c.cid < sid then sendGoaway c E.protocol else
   match (match pad with | some p => if p ≥ len then none else some (len - (1 + p)) | none => some len) with
   | none => sendGoaway c E.protocol
   | some alen =>
-    let connUpd (c : H2Conn) : Res :=
-      let (f, w) := fudgeUpdate c.fudge len
-      ({ c with fudge := f }, if w then [.windowUpdate 0 16384] else [])
     match findStrm c sid with
     | none =>
-      if c.hcRecent then connUpd c
+      if c.hcRecent then connWinUpd c len
       else if alen = 0 then (c, [])
       else
         -- not a data sink: GOAWAY(NO_ERROR) once, and stop parsing this round
-        let (c', o) := if c.goaway = 0 then sendGoaway c 0 else (c, [])
-        ({ c' with stop := true }, o)
-    | some s =>
-      if s.st = .closed ∨ s.st = .hcRemote then
-        -- stream error: the stream is closed and will be retired without further frames
-        let (c', o) := connUpd (rstState c sid)
-        (c', [.rst sid E.streamClosed] ++ o)
-      else
-        let (c, o1) := connUpd c
-        if s.reqLen ≥ 0 ∧ s.reqLen < ((s.bodyIn + alen : Nat) : Int) then
-          (rstState c sid, o1 ++ [.rst sid E.protocol])
-        else
-          let (c, o2, ok) := if endStream then recvEndData c s alen else (c, [], true)
-          if !ok then (c, o1 ++ o2) else
-          let wupd := if endStream then 0 else len
-          let (f, w) := fudgeUpdate s.fudge wupd
-          let c := updStrm c sid fun x => { x with fudge := f, bodyIn := x.bodyIn + alen }
-          (c, o1 ++ o2 ++ (if w then [.windowUpdate sid 16384] else []))
+        let r : Res := if c.goaway = 0 then sendGoaway c 0 else (c, [])
+        ({ r.1 with stop := true }, r.2)
+    | some s => recvDataStream c s sid len alen endStream
 
 /-- h2_recv_window_update() -/
 def recvWindowUpdate (c : H2Conn) (sid len inc : Nat) : Res :=
@@ -211,10 +216,10 @@ def applySettings : H2Conn → List (Nat × Nat) → Res
 def recvSettings (c : H2Conn) (ack : Bool) (sid : Nat) (params : List (Nat × Nat)) (junk : Nat) : Res :=
   if sid ≠ 0 then sendGoaway c E.protocol else
   if !ack then
-    let (c1, o) := applySettings c params
+    let r1 := applySettings c params
     -- a connection error inside the parameters ends processing; otherwise trailing bytes are a size error
-    let (c2, o2) := if c1.goaway = c.goaway ∧ junk ≠ 0 then sendGoaway c1 E.frameSize else (c1, [])
-    (c2, o ++ o2 ++ (if c2.goaway ≤ 0 then [Out.settingsAck] else []))
+    let r2 : Res := if r1.1.goaway = c.goaway ∧ junk ≠ 0 then sendGoaway r1.1 E.frameSize else (r1.1, [])
+    (r2.1, r1.2 ++ r2.2 ++ (if r2.1.goaway ≤ 0 then [Out.settingsAck] else []))
   else if params ≠ [] ∨ junk ≠ 0 then sendGoaway c E.frameSize
   else if c.sentSettings then ({ c with sentSettings := false }, [])
   else sendGoaway c E.protocol
@@ -236,9 +241,9 @@ def recvPriority (c : H2Conn) (sid len dep : Nat) : Res :=
 def recvGoaway (c : H2Conn) (sid len code : Nat) : Res :=
   if len < 8 then sendGoaway c E.frameSize else
   if sid ≠ 0 then sendGoaway c E.protocol else
-  let (c', o) := sendGoaway c (if code = 0 then 0 else E.protocol)
+  let r := sendGoaway c (if code = 0 then 0 else E.protocol)
   -- with no stream left the connection ends: parsing stops here
-  ({ c' with stop := c'.streams.isEmpty }, o)
+  ({ r.1 with stop := r.1.streams.isEmpty }, r.2)
 
 def recvPing (c : H2Conn) (ack : Bool) (sid len : Nat) : Res :=
   if len ≠ 8 then sendGoaway c E.frameSize else
@@ -246,11 +251,48 @@ def recvPing (c : H2Conn) (ack : Bool) (sid len : Nat) : Res :=
   if ack then (c, []) else (c, [.pingAck])
 
 /-- h2_send_refused_stream() once the client has acknowledged the server SETTINGS
-    (and no stream is about to be retired: see `recvFrame`) -/
+    (and no stream is about to be retired: see `recvBatch`) -/
 def refuseStream (c : H2Conn) (sid : Nat) : Res :=
-  let c := { c with cid := sid, nRefused := c.nRefused + 1 }
-  let (c', o) := if c.nRefused > 16 then sendGoaway c 0 else (c, [])
-  (c', [.rst sid E.refused] ++ o)
+  let c1 := { c with cid := sid, nRefused := c.nRefused + 1 }
+  let r : Res := if c1.nRefused > 16 then sendGoaway c1 0 else (c1, [])
+  (r.1, [.rst sid E.refused] ++ r.2)
+
+/-- sequencing helper: run `f` on the connection of `r`, keep `r`'s frames in front -/
+def Res.andThen (r : Res) (f : H2Conn → Res) : Res := ((f r.1).1, r.2 ++ (f r.1).2)
+
+/-- HEADERS on a stream id that is not new: trailers (h2_recv_trailers_r) -/
+def recvTrailers (c : H2Conn) (sid : Nat) (kind : HdrKind) (endStream : Bool) : Res :=
+  match findStrm c sid with
+  | none => (sendGoaway c E.protocol).andThen discardHeaders
+  | some s =>
+    if s.st ≠ .open ∧ s.st ≠ .hcLocal then
+      Res.andThen (rstState c sid, [.rst sid E.streamClosed]) discardHeaders
+    else if !endStream then
+      Res.andThen (rstState c sid, [.rst sid E.protocol]) discardHeaders
+    else
+      let e := recvEndData c s 0
+      if e.2.2 then
+        (match kind with
+         | .hpackBad => Res.andThen (e.1, e.2.1) fun c => sendGoaway c E.compression
+         | _ => (e.1, e.2.1))
+      else Res.andThen (e.1, e.2.1) discardHeaders
+
+/-- the stream record h2_init_stream() + h2_recv_headers() create -/
+def mkStrm (c : H2Conn) (sid : Nat) (endStream : Bool) (status body : Nat) (reqLen : Int) (incr : Bool) : Strm :=
+  { id := sid, st := if endStream then .hcRemote else .open, swin := c.initWin,
+    reqLen := if endStream then 0 else reqLen, status := status, pending := body, incremental := incr }
+
+def addStrm (c : H2Conn) (s : Strm) : H2Conn := { c with streams := c.streams ++ [s], cid := s.id }
+
+/-- HEADERS opening a new stream while a slot is free -/
+def newStream (c : H2Conn) (sid : Nat) (kind : HdrKind) (endStream : Bool) : Res :=
+  match kind with
+  | .hpackBad =>
+    -- stream is created, HPACK error: h2_cid := id, GOAWAY COMPRESSION_ERROR
+    sendGoaway (addStrm c (mkStrm c sid endStream 0 0 (-1) false)) E.compression
+  | .request status body reqLen incr =>
+    (addStrm c (mkStrm c sid endStream status body reqLen incr),
+     if (if endStream then (0 : Int) else reqLen) ≠ 0 then [.windowUpdate sid 131072] else [])
 
 /-- h2_recv_headers() (a complete, already merged HEADERS + CONTINUATION block) -/
 def recvHeaders (c : H2Conn) (sid : Nat) (kind : HdrKind) (endStream : Bool) (dep : Option Nat)
@@ -258,49 +300,11 @@ def recvHeaders (c : H2Conn) (sid : Nat) (kind : HdrKind) (endStream : Bool) (de
   if sid % 2 = 0 then sendGoaway c E.protocol else
   if padBad then sendGoaway c E.protocol else
   if dep = some sid ∧ sid > c.cid then
-    let (c', o) := sendGoaway c E.protocol
-    (c', [.rst sid E.protocol] ++ o)
-  else if sid ≤ c.cid then
-    -- trailers (h2_recv_trailers_r)
-    match findStrm c sid with
-    | none =>
-      let (c1, o1) := sendGoaway c E.protocol
-      let (c2, o2) := discardHeaders c1
-      (c2, o1 ++ o2)
-    | some s =>
-      if s.st ≠ .open ∧ s.st ≠ .hcLocal then
-        let (c2, o2) := discardHeaders (rstState c sid)
-        (c2, [.rst sid E.streamClosed] ++ o2)
-      else if !endStream then
-        let (c2, o2) := discardHeaders (rstState c sid)
-        (c2, [.rst sid E.protocol] ++ o2)
-      else
-        let (c1, o1, ok) := recvEndData c s 0
-        if ok then
-          (match kind with
-           | .hpackBad => let (c2, o2) := sendGoaway c1 E.compression; (c2, o1 ++ o2)
-           | _ => (c1, o1))
-        else
-          let (c2, o2) := discardHeaders c1
-          (c2, o1 ++ o2)
+    ((sendGoaway c E.protocol).1, [.rst sid E.protocol] ++ (sendGoaway c E.protocol).2)
+  else if sid ≤ c.cid then recvTrailers c sid kind endStream
   else if c.goaway ≠ 0 then discardHeaders c
-  else if c.streams.length ≥ Extracted.h2MaxStreams then
-    let (c1, o1) := refuseStream c sid
-    let (c2, o2) := discardHeaders c1
-    (c2, o1 ++ o2)
-  else
-    match kind with
-    | .hpackBad =>
-      -- stream is created, HPACK error: h2_cid := id, GOAWAY COMPRESSION_ERROR
-      let s : Strm := { id := sid, st := if endStream then .hcRemote else .open, swin := c.initWin,
-                        reqLen := if endStream then 0 else -1, status := 0, pending := 0 }
-      sendGoaway { c with streams := c.streams ++ [s], cid := sid } E.compression
-    | .request status body reqLen incr =>
-      let s : Strm := { id := sid, st := if endStream then .hcRemote else .open, swin := c.initWin,
-                        reqLen := if endStream then 0 else reqLen, status := status, pending := body,
-                        incremental := incr }
-      let c1 := { c with streams := c.streams ++ [s], cid := sid }
-      (c1, if s.reqLen ≠ 0 then [.windowUpdate sid 131072] else [])
+  else if c.streams.length ≥ Extracted.h2MaxStreams then (refuseStream c sid).andThen discardHeaders
+  else newStream c sid kind endStream
 
 /-- one complete frame of h2_parse_frames(); nothing is parsed after an error GOAWAY -/
 def recvFrame (c : H2Conn) (f : FrameIn) : Res :=
